@@ -756,6 +756,7 @@ func init() {
 		Technique: "stateless model checking of the real registry code under a cooperative scheduler (overlay-instrumented: sync shim + access hooks on mutable package-level variables), all interleavings per program; vector-clock race detection and brute-force linearizability against a sequential map; plus exhaustive sequential histories",
 		Rule: "family texttable-lifecycle: every sequence of <=5 (thorough 6) operations {set a known name, another known name, an unknown name, a custom decoration, register the unknown name, Render} on ONE long-lived TextTable (refuses to render exactly while its current name is unknown, otherwise renders with the current decoration); family sequential: every sequence of <=4 (thorough 5) operations from {Register(n,d1), Register(n,d2), Register(m,d1), Named(n), Named(never), List, List followed by the caller overwriting/appending to/sorting the returned slice, SetDecorationNamed(n)+Render, SetDecorationNamed(never)+Render} checked against a map model after each step (incl. fails-closed: unknown name => error and refused render); " +
 			"families 3-threads-1-op (9^3 programs, <=2 preemptions; thorough <=4), 2-threads-2-ops (9^4 programs, <=3 preemptions; thorough all), thorough 3-threads-2-ops (<=2 preemptions): names forced to collide, every schedule explored, each followed by final reads; " +
+			"fallback mode only (the overlay's registry reset helper unusable): families fresh-names-2-threads-2-ops and fresh-names-3-threads-1-op over a 5-op menu with names never registered before in the process (<=2 preemptions, thorough 3); " +
 			"oracle per schedule: no deadlock, no panic, no pair of conflicting accesses to the registry map unordered by happens-before, and the call/return history linearizable; non-trivial = every concurrent program; distinct by program and by observed outcome vector",
 		Assumptions: []string{"interleavings are explored at the granularity of hooked points (sync operations, accesses to package-level variables that are assigned outside init, harness yields); memory-model effects below that are only seen by the separate free-running -race pass",
 			"aliasing through pointers/method receivers and state inside the standard library are not instrumented", "the registry is process-global: every execution uses names unique to it"},
@@ -768,7 +769,7 @@ func init() {
 		Overlay:   true,
 		Technique: "stateless model checking of concurrent build+render programs on the real code under a cooperative scheduler (overlay-instrumented), preemption-bounded DFS; per-schedule oracle: outputs equal the same program run alone, vector-clock race freedom on instrumented package-level state, no deadlock",
 		Rule: "family cold-start: in each of the 16 worker processes the very first use of the library is a two-thread program (lazily initialised package state is initialised under the scheduler); programs: every ordered pair of 6 formats (csv, json, markdown, html+row classes, text by registered name, text custom), each thread creating its own table through that package's New, populating it, registering a recording render callback and rendering twice to its own writer, with and without a third thread that registers a decoration, lists and looks up names; " +
-			"scheduling points: every Write on the threads' writers, every callback invocation, every harness step, every sync operation and every access to a mutable package-level variable of the repository; all schedules with <=1 preemption with the registry thread and <=2 without it (thorough: 2 and 3, plus all triples of formats with <=1); non-trivial = every program; distinct by program",
+			"thread bodies differ (every other thread right-aligns a column), copy one shared template cell VALUE carrying properties into their own table, stamp their own cells from the callback and read the stamps back; scheduling points: every Write on the threads' writers, every callback invocation, every harness step, every sync operation (Mutex, RWMutex, Once, WaitGroup, Pool as a deterministic LIFO list, sync/atomic on package-level variables with acquire/release edges) and every access to a mutable package-level variable of the repository; all schedules with <=1 preemption with the registry thread and <=2 without it (thorough: 2 and 3, plus all triples of formats with <=1); non-trivial = every program; distinct by program",
 		Assumptions: []string{"bounded by the preemption bound and the hooked-point granularity; state in the standard library and third-party packages (html/template, runewidth, encoding/json caches) is not instrumented: the separate free-running -race pass of the same thread bodies is supporting evidence for it",
 			"tables and wrappers are never shared between threads (the property is about distinct tables)"},
 		QuickBudget: 240 * time.Second, ThoroughBudget: 40 * time.Minute,
